@@ -57,10 +57,11 @@ def run(case):
         return enc(f(case.get("attempt", 1), ErrorClass.TRANSIENT, fl(case["prev"])))
     if k == "equal":
         f = S.equal_jitter(base_s=fl(case["base"]), max_s=fl(case["max"]))
-        return enc(f(case["attempt"], ErrorClass.TRANSIENT, None))
+        # these strategies do not depend on the previous delay (which a policy shares between the strategies of all classes)
+        return enc(f(case["attempt"], ErrorClass.TRANSIENT, fl(case["prev"]) if case.get("prev") is not None else None))
     if k == "token":
         f = S.token_backoff(base_s=fl(case["base"]), max_s=fl(case["max"]))
-        return enc(f(case["attempt"], ErrorClass.TRANSIENT, None))
+        return enc(f(case["attempt"], ErrorClass.TRANSIENT, fl(case["prev"]) if case.get("prev") is not None else None))
     if k == "adaptive":
         now = [0.0]
         fb = fl(case["fallback"])
